@@ -233,15 +233,25 @@ Fixpoint run (clk : positive) (st : sys_state) (evs : list event) : list (outcom
 (* ------------------------------------------------------------ Process.cpu_percent *)
 (* (code after /repo commit 8e92b46: the stored timestamp is the plain wall clock and
    the elapsed time is scaled by num_cpus) *)
+
+(* _pslinux.Process.cpu_times(): pcputimes(user, system, children_user, children_system, iowait),
+   each = float(stat field) / CLOCK_TICKS (fields 14, 15, 16, 17, 42 of /proc/<pid>/stat) *)
+Record ptimes := { pt_user : Q; pt_system : Q; pt_children_user : Q; pt_children_system : Q; pt_iowait : Q }.
+
+(* one reading of the clock and of the process: _timer(), and the five tick counters *)
+Record preading := { r_t : Q; r_u : Z; r_s : Z; r_cu : Z; r_cs : Z; r_io : Z }.
+Definition proc_cpu_times (clk : positive) (r : preading) : ptimes :=
+  {| pt_user := secs clk (r_u r); pt_system := secs clk (r_s r);
+     pt_children_user := secs clk (r_cu r); pt_children_system := secs clk (r_cs r);
+     pt_iowait := secs clk (r_io r) |}.
+
 Record pstate := { p_sys : option Q;            (* _last_sys_cpu_times : timer() = _timer() *)
-                   p_proc : option (Q * Q) }.   (* _last_proc_cpu_times : (user, system) seconds *)
+                   p_proc : option ptimes }.    (* _last_proc_cpu_times : the whole pcputimes tuple *)
 Definition p_init : pstate := {| p_sys := None; p_proc := None |}.
 
-(* one call: cpu_count() answer (None modelled as 0), and the two readings
-   (timer, utime ticks, stime ticks): at entry, and after time.sleep (blocking only) *)
-Record pevent := { pe_iv : ival; pe_ncpu : Z;
-                   pe_t1 : Q; pe_u1 : Z; pe_s1 : Z;
-                   pe_t2 : Q; pe_u2 : Z; pe_s2 : Z }.
+(* one call: cpu_count() answer (None modelled as 0), the reading at entry, and the
+   reading after time.sleep (blocking form only) *)
+Record pevent := { pe_iv : ival; pe_ncpu : Z; pe_r1 : preading; pe_r2 : preading }.
 
 (* num_cpus = cpu_count() or 1   (cpu_count() is None when the platform says < 1) *)
 Definition ncpu_eff (n : Z) : Z := if n <? 1 then 1 else n.
@@ -249,8 +259,8 @@ Definition ncpu_eff (n : Z) : Z := if n <? 1 then 1 else n.
 (* delta_proc = (pt2.user - pt1.user) + (pt2.system - pt1.system)
    delta_time = (st2 - st1) * num_cpus ; store st2, pt2 ;
    (delta_proc / delta_time) * 100 * num_cpus, ZeroDivisionError -> 0.0 *)
-Definition proc_finish (st1 : Q) (pt1 : Q * Q) (st2 : Q) (pt2 : Q * Q) (n : Z) : pstate * outcome Q :=
-  let delta_proc := ((fst pt2 - fst pt1) + (snd pt2 - snd pt1))%Q in
+Definition proc_finish (st1 : Q) (pt1 : ptimes) (st2 : Q) (pt2 : ptimes) (n : Z) : pstate * outcome Q :=
+  let delta_proc := ((pt_user pt2 - pt_user pt1) + (pt_system pt2 - pt_system pt1))%Q in
   let delta_time := ((st2 - st1) * inject_Z n)%Q in
   ({| p_sys := Some st2; p_proc := Some pt2 |},
    Val (if qzero delta_time then 0%Q else ((delta_proc / delta_time) * 100 * inject_Z n)%Q)).
@@ -260,12 +270,12 @@ Definition proc_step (clk : positive) (st : pstate) (e : pevent) : pstate * outc
   | INeg => (st, Exc ValueError)
   | IPos =>
     let n := ncpu_eff (pe_ncpu e) in
-    proc_finish (pe_t1 e) (secs clk (pe_u1 e), secs clk (pe_s1 e))
-                (pe_t2 e) (secs clk (pe_u2 e), secs clk (pe_s2 e)) n
+    proc_finish (r_t (pe_r1 e)) (proc_cpu_times clk (pe_r1 e))
+                (r_t (pe_r2 e)) (proc_cpu_times clk (pe_r2 e)) n
   | INone | IZero =>
     let n := ncpu_eff (pe_ncpu e) in
-    let st2 := pe_t1 e in
-    let pt2 := (secs clk (pe_u1 e), secs clk (pe_s1 e)) in
+    let st2 := r_t (pe_r1 e) in
+    let pt2 := proc_cpu_times clk (pe_r1 e) in
     match p_sys st, p_proc st with
     | Some st1, Some pt1 => proc_finish st1 pt1 st2 pt2 n
     | _, _ => ({| p_sys := Some st2; p_proc := Some pt2 |}, Val 0%Q)
